@@ -2,6 +2,7 @@ import Driver.Util
 import Driver.MC4
 import Driver.Disp
 import Driver.Pipe
+import Driver.OpAlg
 
 def main (args : List String) : IO UInt32 := do
   let stdin ← IO.getStdin
@@ -10,4 +11,5 @@ def main (args : List String) : IO UInt32 := do
   | ["mc4"] => Driver.MC4.run lines; return 0
   | ["disp"] => Driver.Disp.run lines; return 0
   | ["pipe"] => Driver.Pipe.run lines; return 0
+  | ["opalg"] => Driver.OpAlg.main lines; return 0
   | _ => IO.eprintln "usage: pmdriver <mode>  (case file on stdin)"; return 2
